@@ -4,6 +4,12 @@ NOTES = ("All checks: bin/check <ID> --tier quick|thorough. Exit 0 held / 1 VIOL
          "Specification in spec/, harness in harness/, known findings in known_findings.jsonl; see DESIGN.md.")
 NOT_APPLICABLE = {}
 CHECKS = {
+    "C02": {
+        "level": "model_checking",
+        "technique": "TLA+ History spec (threads, per-thread histories, Finish admits only canon[j]); TLC enumerates single-thread histories over a prior-job alphabet and multi-thread schedules (MC_History); the harness executes them for real (prior jobs on the same fresh OS thread, barrier-released threads, fresh processes for canon and hash-seed variation); every start/finish event validated by TLC (Trace_History), with the known identifier-order deviation judged by a separate normalised fingerprint",
+        "text": "Every history of <= MaxHist prior compilations (error paths, interner-perturbing declarations, module/extend/keyword-argument jobs) before each observed job, and every enumerated assignment of job sequences to concurrent threads, must end with the byte-identical result the job gives in a fresh process; repeated fresh processes must agree with each other.",
+        "note": "Interleavings inside one compilation are sampled from the OS scheduler, not enumerated; jobs never print unique-id()/random() values. F9 (order of keyword-argument names follows interning order) is a listed known finding: only differences that are pure re-orderings of words are attributed to it.",
+    },
     "C12": {
         "level": "model_checking",
         "technique": "TLA+ ModuleGraph spec (visibility through show/hide/prefix, privacy, once-only loading and load order, shared module variables, with-configuration rules, named deviation switch); TLC enumerates all edge decorations x probes of a three-file project (MC_Modules); grass compiles each over an in-memory Fs; TLC trace machine Trace_Modules judges probe value/error, marker order and load log",
